@@ -35,12 +35,16 @@ def get_APU_emissions(
     apu_running = apu.fuel_kg_per_s != 0.0
     apu_fuel_burn = apu.fuel_kg_per_s * apu_time
 
-    # SOx
+    # SOx (absent from the LTO indices when SOx emissions are switched off)
     indices[Species.SO2] = (
-        lto_indices[Species.SO2][ThrustMode.IDLE] if apu_running else 0.0
+        lto_indices[Species.SO2][ThrustMode.IDLE]
+        if apu_running and Species.SO2 in lto_indices
+        else 0.0
     )
     indices[Species.SO4] = (
-        lto_indices[Species.SO4][ThrustMode.IDLE] if apu_running else 0.0
+        lto_indices[Species.SO4][ThrustMode.IDLE]
+        if apu_running and Species.SO4 in lto_indices
+        else 0.0
     )
     indices[Species.SOx] = indices[Species.SO2] + indices[Species.SO4]
 
